@@ -105,7 +105,7 @@ fn hmac_sha1(key: &[u8], data: &[u8]) -> [u8; 20] {
 #[derive(Clone, Debug)]
 enum MiMode {
     Absent,
-    Garbage([u8; 20]),
+    Garbage(Vec<u8>),
     Key(Vec<u8>),
 }
 
@@ -473,6 +473,10 @@ pub const MI_ABSENT: i64 = 0;
 pub const MI_GARBAGE: i64 = 1;
 pub const MI_WRONG_KEY: i64 = 2;
 pub const MI_RIGHT: i64 = 3;
+pub const MI_EMPTY: i64 = 4;
+pub const MI_SHORT1: i64 = 5;
+pub const MI_SHORT19: i64 = 6;
+pub const MI_LONG: i64 = 7;
 pub const SRC_FRESH: i64 = 0;
 pub const SRC_B: i64 = 1;
 pub const SRC_DEAD: i64 = 2;
@@ -482,7 +486,7 @@ fn uname(u: i64) -> &'static str {
     ["absent", "wrong", "right", "swapped"][u.rem_euclid(4) as usize]
 }
 fn miname(m: i64) -> &'static str {
-    ["absent", "garbage", "wrongkey", "right"][m.rem_euclid(4) as usize]
+    ["absent", "garbage", "wrongkey", "right", "empty", "short1", "short19", "long24"][m.rem_euclid(8) as usize]
 }
 fn srcname(s: i64) -> &'static str {
     ["fresh", "spoofB", "spoofBdead", "M:Bport"][s.rem_euclid(4) as usize]
@@ -497,11 +501,11 @@ fn req_op(at: u64, user: i64, mi: i64, uc: i64, fp: i64, ctl: i64, prio: i64, sr
     Op::new(at, "req", &[user, mi, uc, fp, ctl, prio, src])
 }
 
-const SYS_CASES: u64 = 3 * 4 * 2 * 2 * 3 * 2 * 2;
+const SYS_CASES: u64 = 3 * 8 * 2 * 2 * 3 * 2 * 2;
 
 pub fn budget(_prop: &str, tier: Tier) -> u64 {
     match tier {
-        Tier::Quick => SYS_CASES + 5424,
+        Tier::Quick => SYS_CASES + 5000,
         Tier::Thorough => SYS_CASES * 4 + 40_000,
     }
 }
@@ -529,7 +533,7 @@ pub fn generate(prop: &str, seed: u64, idx: u64, tier: Tier) -> Plan {
             v /= n;
             x
         };
-        let (user, mi, uc, fp, target, role, src) = (take(3), take(4), take(2), take(2), take(3), take(2), take(2));
+        let (user, mi, uc, fp, target, role, src) = (take(3), take(8), take(2), take(2), take(3), take(2), take(2));
         let round = idx / SYS_CASES;
         let (a_start, b_start, end) = (1000u64, 3000u64, 6500u64);
         p.knobs.insert("role".into(), role);
@@ -598,7 +602,7 @@ pub fn generate(prop: &str, seed: u64, idx: u64, tier: Tier) -> Plan {
                 } else {
                     loop {
                         let u = *r.pick(&[U_ABSENT, U_WRONG, U_RIGHT, U_RIGHT, U_SWAPPED]);
-                        let m = *r.pick(&[MI_ABSENT, MI_GARBAGE, MI_WRONG_KEY, MI_WRONG_KEY, MI_RIGHT]);
+                        let m = *r.pick(&[MI_ABSENT, MI_GARBAGE, MI_WRONG_KEY, MI_WRONG_KEY, MI_RIGHT, MI_EMPTY, MI_SHORT1, MI_SHORT19, MI_LONG]);
                         if !(u == U_RIGHT && m == MI_RIGHT) {
                             break (u, m);
                         }
@@ -861,7 +865,7 @@ pub async fn run(ctx: &Ctx) {
                 let mut tx = [0u8; 12];
                 arng.fill(&mut tx);
                 let (bytes, from, sem, judged, is_req): (Vec<u8>, SocketAddr, String, bool, bool) = if op.kind == "req" {
-                    let (user, mi, uc, fp, ctl, prio, src) = (op.arg(0).rem_euclid(4), op.arg(1).rem_euclid(4), op.arg(2) != 0, op.arg(3).rem_euclid(3), op.arg(4).rem_euclid(3), op.arg(5).rem_euclid(3), op.arg(6));
+                    let (user, mi, uc, fp, ctl, prio, src) = (op.arg(0).rem_euclid(4), op.arg(1).rem_euclid(8), op.arg(2) != 0, op.arg(3).rem_euclid(3), op.arg(4).rem_euclid(3), op.arg(5).rem_euclid(3), op.arg(6));
                     let mut attrs: Vec<(u16, Vec<u8>)> = Vec::new();
                     match user {
                         U_WRONG => attrs.push((AT_USERNAME, b"deadbeefdeadbeef:cafecafecafecafe".to_vec())),
@@ -883,8 +887,17 @@ pub async fn run(ctx: &Ctx) {
                         attrs.push((AT_USE_CANDIDATE, Vec::new()));
                     }
                     let mim = match mi {
-                        MI_GARBAGE => {
-                            let mut g = [0u8; 20];
+                        MI_GARBAGE | MI_EMPTY | MI_SHORT1 | MI_SHORT19 | MI_LONG => {
+                            // a MESSAGE-INTEGRITY attribute of the regular or of an irregular length, filled with bytes that
+                            // no key holder produced
+                            let n = match mi {
+                                MI_EMPTY => 0,
+                                MI_SHORT1 => 1,
+                                MI_SHORT19 => 19,
+                                MI_LONG => 24,
+                                _ => 20,
+                            };
+                            let mut g = vec![0u8; n];
                             arng.fill(&mut g);
                             MiMode::Garbage(g)
                         }
@@ -943,7 +956,7 @@ pub async fn run(ctx: &Ctx) {
                     };
                     let mim = match mi {
                         1 => {
-                            let mut g = [0u8; 20];
+                            let mut g = vec![0u8; 20];
                             arng.fill(&mut g);
                             MiMode::Garbage(g)
                         }
